@@ -145,6 +145,9 @@ func TheoryPrelude(m Mode) string {
 			rb = append(rb, fmt.Sprintf("(ite (< %d (bytelen v)) (bebyte v (+ (- 8 (bytelen v)) %d)) (ite (= %d (bytelen v)) (bytelen v) 0))", k, k, k))
 		}
 		fmt.Fprintf(&b, "(define-fun rencSeq ((v Int)) Int (seq9 (+ (bytelen v) 1) %s))\n", strings.Join(rb, " "))
+		// seqidA names a byte sequence by its CONTENT: equal bytes, equal name (assumed: this is what the symbol stands for;
+		// a model is any injective encoding of finite byte strings as integers)
+		b.WriteString("(assert (forall ((a (Array Int Int)) (oa Int) (b (Array Int Int)) (ob Int) (n Int)) (! (=> (forall ((q Int)) (! (=> (and (<= oa q) (< q (+ oa n))) (= (select a q) (select b (+ (- q oa) ob)))) :pattern ((select a q)))) (= (seqidA a oa n) (seqidA b ob n))) :pattern ((seqidA a oa n) (seqidA b ob n)))))\n")
 		b.WriteString("(declare-fun seqOfStr (Str) Int)\n")
 		// BLS12-381 layer
 		var t48, t32 []string
@@ -201,6 +204,13 @@ func TheoryPrelude(m Mode) string {
 			fmt.Fprintf(&b, "(declare-fun %s (Int) Bool)\n", f)
 		}
 		b.WriteString("(declare-fun e1Eq (Int Int) Bool)\n(declare-fun e2Eq (Int Int) Bool)\n")
+		// E1/E2_is_equal compare group elements, not representations: equality is reflexive and blind to the
+		// projective-to-affine conversion (assumed properties of BLST's POINTonE*_is_equal / from_Jacobian)
+		for _, c := range []string{"1", "2"} {
+			fmt.Fprintf(&b, "(assert (forall ((p Int)) (! (e%sEq p p) :pattern ((e%sEq p p)))))\n", c, c)
+			fmt.Fprintf(&b, "(assert (forall ((p Int) (q Int)) (! (= (e%sEq (e%sAffine p) q) (e%sEq p q)) :pattern ((e%sEq (e%sAffine p) q)))))\n", c, c, c, c, c)
+			fmt.Fprintf(&b, "(assert (forall ((p Int) (q Int)) (! (= (e%sEq p (e%sAffine q)) (e%sEq p q)) :pattern ((e%sEq p (e%sAffine q))))))\n", c, c, c, c, c)
+		}
 		b.WriteString("(assert (forall ((a Int) (b Int)) (! (and (= (fp2c0 (fp2c a b)) a) (= (fp2c1 (fp2c a b)) b)) :pattern ((fp2c a b)))))\n")
 		for _, f := range []string{"e1x", "e1y", "e1z", "e2x", "e2y", "e2z"} {
 			fmt.Fprintf(&b, "(declare-fun %s (Int) Int)\n", f)
@@ -227,6 +237,7 @@ func TheoryPrelude(m Mode) string {
 		b.WriteString("(assert (forall ((n Int) (c Int)) (! (= (shInit (cshakeNew n c)) (cshakeNew n c)) :pattern ((cshakeNew n c)))))\n")
 		b.WriteString("(assert (forall ((s Int)) (! (= (shInit (shInit s)) (shInit s)) :pattern ((shInit s)))))\n")
 		b.WriteString("(assert (forall ((s Int) (k Int)) (! (and (<= 0 (shOut s k)) (<= (shOut s k) 255)) :pattern ((shOut s k)))))\n")
+		b.WriteString(foldTheory())
 		b.WriteString("(declare-fun g2vecValidA ((Array Int Int) Int Int) Bool)\n")
 		fmt.Fprintf(&b, "(define-fun g2vecValid ((h %s) (s Slice) (n Int)) Bool (g2vecValidA (select h (p.obj (sl.ptr s))) (p.off (sl.ptr s)) n))\n", hs)
 		b.WriteString("(declare-fun ks (Int Int) Int)\n(declare-fun xor8 (Int Int) Int)\n")
@@ -263,6 +274,15 @@ type Lemma struct {
 	SMT      string // closed formula
 	Props    []string
 	NoAssert bool // proved for the record (bridges a paper step), not added to the verification conditions
+	Uses     []string    // theory symbols: the lemma is proved by every check whose verification conditions mention one of them
+	Steps    []LemmaStep // if non-empty: the lemma is proved by induction, these are the obligations (base, step) proved instead of SMT itself
+}
+
+// LemmaStep is one obligation of a proof by induction (closed formula over the constants declared in Decls).
+type LemmaStep struct {
+	Name  string
+	Decls []string
+	Goal  string
 }
 
 var Lemmas []Lemma
